@@ -85,7 +85,7 @@ impl<'ctx> PriceRepositoryBuilder<'ctx> {
         }
         if event.price_x.value.is_zero() || event.price_y.value.is_zero() {
             // zero price can't be inverted, and it doesn't give any rate.
-            log::error!("price log should not contain zero amount, ignored");
+            log::warn!("price log should not contain zero amount, ignored");
             return;
         }
         self.insert_impl(source, event.date, event.price_x, event.price_y);
